@@ -18,6 +18,7 @@ def rules_props():
         m[parts[0]] = parts[1].split(',')
     return m
 RP = rules_props()
+KNOWN={f['key'] for f in json.load(open('/verif/known-findings.json'))['findings'] if f['status']=='known'}
 def detect(seed):
     d = os.path.join(V, 'seeded', seed)
     sc = tempfile.mkdtemp(prefix='redetect-')
@@ -29,7 +30,7 @@ def detect(seed):
         out = subprocess.run([BV, '-repo', sc, '-rules', ','.join(sorted(RP)), '-json'], capture_output=True, text=True).stdout
         props = set()
         for o in json.loads(out):
-            if o['status'] not in ('discharged',):
+            if o['status'] not in ('discharged',) and o['key'] not in KNOWN:
                 props.update(RP.get(o['rule'], []))
         return seed, sorted(props)
     finally:
